@@ -88,21 +88,43 @@ SealMonotone == \A g, h \in SealPrograms :
                   (g.kind = h.kind /\ g.use = h.use /\ (g.ma = "def" => h.ma = "def") /\ (g.mb = "def" => h.mb = "def") /\ SealVerdict(h) = "accept")
                      => SealVerdict(g) = "accept"
 
+(* ---- named fields: "an unknown ... field" is a definite error -------------------------------------------------- *)
+(* P = (f1 :: Int64) * .. * (fn :: Int64) with the values 1..n.  Labels are numbers: i for fi, 0 for the unknown `z`. *)
+(*   proj     p/g                       accepted iff g is a field; the program exits with the field's value         *)
+(*   projpat  let (/g) = p in ..        the same through a projection pattern                                        *)
+(*   build    (l1 = 1, .., ln = n) : P  accepted iff the labels are exactly the declared ones IN ORDER               *)
+(*   pattern  let (l1 = a1, ..) = p     the same for a named pattern; exits with the last component                  *)
+FieldCounts == {2, 3}
+LabelSeqs(n) == {q \in [1..n -> 0..n] : \A i, j \in 1..n : i # j => q[i] # q[j]}
+FieldPrograms ==
+  UNION {{[fam |-> "field", n |-> n, kind |-> k, g |-> g, labels |-> <<>>] : k \in {"proj", "projpat"}, g \in 0..n}
+         \cup {[fam |-> "field", n |-> n, kind |-> k, g |-> 0, labels |-> q] : k \in {"build", "pattern"}, q \in LabelSeqs(n)}
+         : n \in FieldCounts}
+Declared(n) == [i \in 1..n |-> i]
+FieldVerdict(p) == CASE p.kind \in {"proj", "projpat"} -> IF p.g \in 1..p.n THEN "accept" ELSE "missingfield"
+                     [] OTHER -> IF p.labels = Declared(p.n) THEN "accept" ELSE "labelmismatch"
+FieldExit(p) == CASE p.kind \in {"proj", "projpat"} -> p.g [] p.kind = "build" -> 1 [] OTHER -> p.n
+\* exactly one label sequence per record type is accepted
+OneSpelling == \A n \in FieldCounts : Cardinality({q \in LabelSeqs(n) : q = Declared(n)}) = 1
+
 VARIABLES stage, prog
 Init == stage = "pick" /\ prog \in {[pkg |-> k, path |-> <<>>, opener |-> "let", body |-> "exitconst", ctx |-> "root"] : k \in Pkgs}
 Next == stage = "pick" /\ stage' = "done" /\
         \/ prog' \in {g \in Programs : g.pkg = prog.pkg /\ Valid(g)}
         \/ (prog.pkg = "box" /\ prog' \in SealPrograms)
+        \/ (prog.pkg = "boxf" /\ prog' \in FieldPrograms)
 Spec == Init /\ [][Next]_<<stage, prog>>
 
 \* the rule is a function of the body alone: neither the nesting of the pattern nor the opening construct matters
 PathIndependent == \A g, h \in {x \in Programs : Valid(x)} : (g.body = h.body) => Verdict(g) = Verdict(h)
 \* an accepted opener has a closed type; every escaping body is rejected
 AcceptedIsClosed == \A g \in {x \in Programs : Valid(x)} : Verdict(g) = "accept" => ~Mentions(Bodies[g.body].ty)
-Inv == stage = "pick" => (PathIndependent /\ AcceptedIsClosed /\ SealMonotone)
+Inv == stage = "pick" => (PathIndependent /\ AcceptedIsClosed /\ SealMonotone /\ OneSpelling)
 
 Report == stage = "done" =>
-  IF "fam" \in DOMAIN prog
+  IF "fam" \in DOMAIN prog /\ prog.fam = "field"
+  THEN PrintT(<<"REPLAY", ToJson(prog @@ [verdict |-> FieldVerdict(prog), exit |-> FieldExit(prog)])>>)
+  ELSE IF "fam" \in DOMAIN prog
   THEN PrintT(<<"REPLAY", ToJson(prog @@ [verdict |-> SealVerdict(prog), exit |-> 3])>>)
   ELSE PrintT(<<"REPLAY", ToJson([pkg |-> prog.pkg, path |-> prog.path, opener |-> prog.opener, body |-> prog.body,
                                   ctx |-> prog.ctx, verdict |-> Verdict(prog), exit |-> Exit(prog)])>>)
